@@ -41,6 +41,9 @@ pub fn test_entry(prop: &str, e: &Entry) -> Result<CaseInfo, Fail> {
                 continue;
             }
             Detect::Undecided(_) | Detect::NotConsumed => {
+                if std::env::var("PVF_DEBUG").is_ok() {
+                    eprintln!("undecided: row {:?} n={} corrupt={} victim={} {:?} outcomes {:?}", e.row, e.attack.base.n(), e.attack.corrupt, v, d, run.res.outcomes.iter().map(|o| o.class()).collect::<Vec<_>>());
+                }
                 undecided = true;
                 outcome_classes.push("undecided");
                 continue;
